@@ -816,7 +816,13 @@ fn gen_c19(seed: u64, idx: usize, _tier: Tier) -> GitScenario {
                     }
                 }
                 8 | 9 => GitOp::CpShow,
-                10 => GitOp::CpUpdate { id: None, raw_id: Some("\u{0}fail".into()), pending: g.rng.chance(1, 2) },
+                10 => {
+                    if g.rng.chance(1, 2) {
+                        GitOp::CpUpdateUnborn { pending: g.rng.chance(1, 3) }
+                    } else {
+                        GitOp::CpUpdate { id: None, raw_id: Some("\u{0}fail".into()), pending: g.rng.chance(1, 2) }
+                    }
+                }
                 11 => GitOp::CpDelete,
                 12 => GitOp::OutDelete,
                 13 | 14 => {
@@ -893,6 +899,38 @@ fn exec_c19_inner(sc: &GitScenario) -> Outcome {
                     out.advisories.push("update with an unusable git succeeded".into());
                     if let Some(d) = o.json() {
                         e.cp_doc = Some(d["checkpoint"].clone());
+                    }
+                }
+            }
+            GitOp::CpUpdateUnborn { pending } => {
+                // HEAD is pointed at a branch without commits (index and working tree stay as they are), the update
+                // is attempted, HEAD is pointed back
+                let branch = e.w.git(&["symbolic-ref", "HEAD"]).unwrap_or_default().trim().to_string();
+                if branch.is_empty() || e.w.git(&["symbolic-ref", "HEAD", &format!("refs/heads/unborn-{}", i)]).is_err() {
+                    out.skipped = Some("history_op_failed(harness)".into());
+                    return out;
+                }
+                let mut a = vec!["checkpoint".to_string(), "update".into()];
+                if *pending {
+                    a.push("--pending".into());
+                }
+                let o = e.w.cli_v(&a);
+                let _ = e.w.git(&["symbolic-ref", "HEAD", &branch]);
+                out.sub_evals += 1;
+                out.fault("checkpoint_update_while_head_names_no_commit", 1);
+                out.trace.push(format!("{} update on an unborn HEAD -> {:?}", i, o.code));
+                if o.code == Some(0) {
+                    out.violate("head_recorded", "unborn_head_recorded", format!("op {}: HEAD names a branch without commits, yet checkpoint update succeeded and returned {}", i, o.out_str().trim()));
+                    break;
+                }
+                // the store must be what it was
+                let sh = e.w.cli(&["checkpoint", "show"]);
+                match (&e.cp_doc, sh.code, sh.json()) {
+                    (Some(want), Some(0), Some(d)) if d["checkpoint"] == *want => {}
+                    (None, c, _) if c != Some(0) => {}
+                    (want, c, d) => {
+                        out.violate("show_last_update", "changed_by_failed_update", format!("op {}: a failed update on an unborn HEAD changed the store: show exit {:?} {:?}, last successful update returned {:?}", i, c, d.map(|x| x["checkpoint"].clone()), want));
+                        break;
                     }
                 }
             }
